@@ -46,6 +46,7 @@ class Scenario:
     no_defer: bool = False               # never offer recurring (defer_by) parameters
     script: list | None = None           # directed history: the operations in this order instead of seeded choices
     delay_kind: str | None = None        # "net" | "until" | "defer+net" | "defer": force the form of the delay parameters
+    slow_signals_ms: int = 0             # subscribers on the settling calls that only observe, but take this long
     abs_delays: bool = False             # delays count from the start of the history, not from the enqueue: identical due instants
 
 
@@ -68,6 +69,18 @@ async def run_history(loop, sc: Scenario, make=None, projector=None, latency_us=
         make, projector, signature = be["make"], be["projector"], be["signature"]
         latency_us = be["latency_us"] if latency_us is None else latency_us
     broker, conn = make()
+    if sc.slow_signals_ms:
+        class _Slow:
+            pass
+        slow = _Slow()
+        for name in ("before_reject", "before_ack", "before_nack", "before_requeue"):
+            def mk(name=name):
+                async def sub():
+                    await asyncio.sleep(sc.slow_signals_ms / 1000)
+                sub.__name__ = name
+                return sub
+            setattr(slow, name, mk())
+        conn.middleware.add_middleware(slow)
     rec = Recorder(latency_us=latency_us)
     rec.wrap_broker(broker)
     rec.projectors.append(projector(broker))
@@ -205,7 +218,7 @@ async def run_history(loop, sc: Scenario, make=None, projector=None, latency_us=
           if sc.script:
               ch = sc.script[n]
               ch = tuple(ch) if isinstance(ch, list) else ch
-              if ch not in ("enq", "maint") and ch[0] not in ("sleep", "enqx") and ch not in choices:
+              if ch not in ("enq", "maint") and ch[0] not in ("sleep", "enqx", "finish_bg", "join_finish") and ch not in choices:
                   continue                   # (not applicable in the client's present state, e.g. after an interrupted call)
           stats["ops"] += 1
           if ch == "enq" or ch[0] == "enqx":
@@ -249,6 +262,21 @@ async def run_history(loop, sc: Scenario, make=None, projector=None, latency_us=
               # (an interrupted start may or may not have taken effect: the client treats the consumer as
               #  started, so that it will be finished -- a well-behaved client does not abandon it)
               c["on"] = True
+          elif ch[0] == "finish_bg":
+              # finish() of the consumer runs in the background while its client goes on (a shutdown that gives messages back
+              # from two sides at once)
+              c = cons[ch[1]]
+              oplog.append(("finish_bg", ch[1]))
+              c["fin_bg"] = asyncio.ensure_future(do(n, c["obj"].finish))
+              await asyncio.sleep(0)
+          elif ch[0] == "join_finish":
+              c = cons[ch[1]]
+              oplog.append(("join_finish", ch[1]))
+              if c.get("fin_bg") is not None:
+                  await c.pop("fin_bg")
+                  c["on"] = False
+                  c["held"] = []
+                  c["obj"] = broker.get_consumer(c["q"], sc.consumers[ch[1]][1], None, MessageCategory[c["cat"]])
           elif ch[0] == "finish":
               c = cons[ch[1]]
               oplog.append(("finish", ch[1]))
@@ -323,6 +351,8 @@ async def run_history(loop, sc: Scenario, make=None, projector=None, latency_us=
                 await c["obj"].unpause()
             except RuntimeError:
                 pass
+        if c.get("fin_bg") is not None:
+            await c.pop("fin_bg")
         if c.get("bg") is not None:
             try:
                 r = await c["bg"]
